@@ -141,7 +141,9 @@ func (g *graphMemoizer) AddTriples(ctx context.Context, ts []*triple.Triple) err
 	// memoized outlives it, and after it, so that a lookup that overlapped with it
 	// cannot memoize what it saw.
 	g.reset()
+	yieldPoint("write:reset")
 	err := g.g.AddTriples(ctx, ts)
+	yieldPoint("write:forwarded")
 	g.reset()
 	return err
 }
@@ -153,7 +155,9 @@ func (g *graphMemoizer) RemoveTriples(ctx context.Context, ts []*triple.Triple) 
 	// memoized outlives it, and after it, so that a lookup that overlapped with it
 	// cannot memoize what it saw.
 	g.reset()
+	yieldPoint("write:reset")
 	err := g.g.RemoveTriples(ctx, ts)
+	yieldPoint("write:forwarded")
 	g.reset()
 	return err
 }
@@ -217,6 +221,7 @@ func (g *graphMemoizer) Objects(ctx context.Context, s *node.Node, p *predicate.
 	}
 
 	// Query and memoize the results.
+	yieldPoint("read:miss")
 	c := make(chan *triple.Object)
 	defer close(objs)
 
@@ -241,6 +246,7 @@ func (g *graphMemoizer) Objects(ctx context.Context, s *node.Node, p *predicate.
 		}
 	}
 	wg.Wait()
+	yieldPoint("read:fetched")
 	g.mu.Lock()
 	if err == nil && gen == g.gen {
 		// Complete and not overtaken by an update: memoize.
@@ -290,6 +296,7 @@ func (g *graphMemoizer) Subjects(ctx context.Context, p *predicate.Predicate, o 
 	}
 
 	// Query and memoize the results.
+	yieldPoint("read:miss")
 	c := make(chan *node.Node)
 	defer close(subs)
 
@@ -314,6 +321,7 @@ func (g *graphMemoizer) Subjects(ctx context.Context, p *predicate.Predicate, o 
 		}
 	}
 	wg.Wait()
+	yieldPoint("read:fetched")
 	g.mu.Lock()
 	if err == nil && gen == g.gen {
 		// Complete and not overtaken by an update: memoize.
@@ -353,6 +361,7 @@ func (g *graphMemoizer) PredicatesForSubject(ctx context.Context, s *node.Node, 
 	}
 
 	// Query and memoize the results.
+	yieldPoint("read:miss")
 	c := make(chan *predicate.Predicate)
 	defer close(prds)
 
@@ -377,6 +386,7 @@ func (g *graphMemoizer) PredicatesForSubject(ctx context.Context, s *node.Node, 
 		}
 	}
 	wg.Wait()
+	yieldPoint("read:fetched")
 	g.mu.Lock()
 	if err == nil && gen == g.gen {
 		// Complete and not overtaken by an update: memoize.
@@ -416,6 +426,7 @@ func (g *graphMemoizer) PredicatesForObject(ctx context.Context, o *triple.Objec
 	}
 
 	// Query and memoize the results.
+	yieldPoint("read:miss")
 	c := make(chan *predicate.Predicate)
 	defer close(prds)
 
@@ -440,6 +451,7 @@ func (g *graphMemoizer) PredicatesForObject(ctx context.Context, o *triple.Objec
 		}
 	}
 	wg.Wait()
+	yieldPoint("read:fetched")
 	g.mu.Lock()
 	if err == nil && gen == g.gen {
 		// Complete and not overtaken by an update: memoize.
@@ -479,6 +491,7 @@ func (g *graphMemoizer) PredicatesForSubjectAndObject(ctx context.Context, s *no
 	}
 
 	// Query and memoize the results.
+	yieldPoint("read:miss")
 	c := make(chan *predicate.Predicate)
 	defer close(prds)
 
@@ -503,6 +516,7 @@ func (g *graphMemoizer) PredicatesForSubjectAndObject(ctx context.Context, s *no
 		}
 	}
 	wg.Wait()
+	yieldPoint("read:fetched")
 	g.mu.Lock()
 	if err == nil && gen == g.gen {
 		// Complete and not overtaken by an update: memoize.
@@ -542,6 +556,7 @@ func (g *graphMemoizer) TriplesForSubject(ctx context.Context, s *node.Node, lo 
 	}
 
 	// Query and memoize the results.
+	yieldPoint("read:miss")
 	c := make(chan *triple.Triple)
 	defer close(trpls)
 
@@ -566,6 +581,7 @@ func (g *graphMemoizer) TriplesForSubject(ctx context.Context, s *node.Node, lo 
 		}
 	}
 	wg.Wait()
+	yieldPoint("read:fetched")
 	g.mu.Lock()
 	if err == nil && gen == g.gen {
 		// Complete and not overtaken by an update: memoize.
@@ -605,6 +621,7 @@ func (g *graphMemoizer) TriplesForPredicate(ctx context.Context, p *predicate.Pr
 	}
 
 	// Query and memoize the results.
+	yieldPoint("read:miss")
 	c := make(chan *triple.Triple)
 	defer close(trpls)
 
@@ -629,6 +646,7 @@ func (g *graphMemoizer) TriplesForPredicate(ctx context.Context, p *predicate.Pr
 		}
 	}
 	wg.Wait()
+	yieldPoint("read:fetched")
 	g.mu.Lock()
 	if err == nil && gen == g.gen {
 		// Complete and not overtaken by an update: memoize.
@@ -668,6 +686,7 @@ func (g *graphMemoizer) TriplesForObject(ctx context.Context, o *triple.Object, 
 	}
 
 	// Query and memoize the results.
+	yieldPoint("read:miss")
 	c := make(chan *triple.Triple)
 	defer close(trpls)
 
@@ -692,6 +711,7 @@ func (g *graphMemoizer) TriplesForObject(ctx context.Context, o *triple.Object, 
 		}
 	}
 	wg.Wait()
+	yieldPoint("read:fetched")
 	g.mu.Lock()
 	if err == nil && gen == g.gen {
 		// Complete and not overtaken by an update: memoize.
@@ -731,6 +751,7 @@ func (g *graphMemoizer) TriplesForSubjectAndPredicate(ctx context.Context, s *no
 	}
 
 	// Query and memoize the results.
+	yieldPoint("read:miss")
 	c := make(chan *triple.Triple)
 	defer close(trpls)
 
@@ -755,6 +776,7 @@ func (g *graphMemoizer) TriplesForSubjectAndPredicate(ctx context.Context, s *no
 		}
 	}
 	wg.Wait()
+	yieldPoint("read:fetched")
 	g.mu.Lock()
 	if err == nil && gen == g.gen {
 		// Complete and not overtaken by an update: memoize.
@@ -794,6 +816,7 @@ func (g *graphMemoizer) TriplesForPredicateAndObject(ctx context.Context, p *pre
 	}
 
 	// Query and memoize the results.
+	yieldPoint("read:miss")
 	c := make(chan *triple.Triple)
 	defer close(trpls)
 
@@ -818,6 +841,7 @@ func (g *graphMemoizer) TriplesForPredicateAndObject(ctx context.Context, p *pre
 		}
 	}
 	wg.Wait()
+	yieldPoint("read:fetched")
 	g.mu.Lock()
 	if err == nil && gen == g.gen {
 		// Complete and not overtaken by an update: memoize.
@@ -840,7 +864,9 @@ func (g *graphMemoizer) Exist(ctx context.Context, t *triple.Triple) (bool, erro
 	}
 
 	// Query and memoize the results.
+	yieldPoint("read:miss")
 	b, err := g.g.Exist(ctx, t)
+	yieldPoint("read:fetched")
 	if err == nil {
 		g.mu.Lock()
 		if gen == g.gen {
@@ -875,6 +901,7 @@ func (g *graphMemoizer) Triples(ctx context.Context, lo *storage.LookupOptions, 
 	}
 
 	// Query and memoize the results.
+	yieldPoint("read:miss")
 	c := make(chan *triple.Triple)
 	defer close(trpls)
 
@@ -899,6 +926,7 @@ func (g *graphMemoizer) Triples(ctx context.Context, lo *storage.LookupOptions, 
 		}
 	}
 	wg.Wait()
+	yieldPoint("read:fetched")
 	g.mu.Lock()
 	if err == nil && gen == g.gen {
 		// Complete and not overtaken by an update: memoize.
